@@ -51,7 +51,8 @@ def restore1(t0: bool, t1: bool, t2: bool, t3: bool, text: str, fault: bool, clo
     pre: len(text) <= 1
     post: _
     """
-    tick()
+    if tick():
+        return True
     term, entry = bits(t0, t1, t2, t3), (int(PART) if PART else 0)
     if term >= len(TERMINATIONS) or entry >= 3:
         return True
@@ -87,7 +88,8 @@ def restore2(text1: str, text2: str) -> bool:
     pre: len(text1) <= 1 and len(text2) <= 1
     post: _
     """
-    tick()
+    if tick():
+        return True
     term, e1, e2 = [int(x) for x in (PART or "10,0,1").split(",")]
     r, sb = fresh()
     snap = _snapshot()
@@ -121,7 +123,8 @@ def restore_reach(t0: bool, t1: bool, t2: bool, t3: bool) -> bool:
     pre: True
     post: _
     """
-    tick()
+    if tick():
+        return True
     term = bits(t0, t1, t2, t3)
     if term >= len(TERMINATIONS):
         return True
